@@ -78,6 +78,11 @@ def check(tier: str, seed: int) -> int:
             if w == ["call"] and d["layers"]:
                 w = []
             texts.append(("canon", render_doc(dict(d, wrap=w, nl=nl))))
+            if d["layers"] and not w:
+                # trivia owned by the let layers (a comment after every `in'), and the same document in a loose layout
+                texts.append(("layer_trivia", render_doc(dict(d, wrap=w, nl=nl), in_comments=True)))
+                if nl == 1:
+                    texts.append(("loose", render_doc(dict(d, wrap=w, nl=nl), loose=True)))
     texts += [("noncanon", t) for t in NONCANON] + [("error", t) for t in ERRONEOUS] + [("blank", t) for t in BLANK] \
         + [("noneditable", t) for t in NON_EDITABLE]
     cases = []
@@ -86,6 +91,8 @@ def check(tier: str, seed: int) -> int:
         chains = [[c] for c in COMMANDS] + CHAINS
         if cls == "canon" and tier == "quick":
             chains = rnd.sample(chains, 6)
+        if cls in ("layer_trivia", "loose"):
+            chains = [[COMMANDS[13]], [COMMANDS[3]], CHAINS[2]] + (rnd.sample(chains, 2) if tier == "quick" else chains)
         for ch in chains:
             sp = sp_budget > 0 and (cls != "canon" or rnd.random() < 0.05)
             if sp:
